@@ -20,6 +20,11 @@ def _law(item):
     # (an unpicklable task argument makes multiprocessing.Pool.map wait forever)
     text, name, val = item
     bind = {name: celx.to_cel(val)}
+    if val["t"] == "timestamp" and abs(val["v"]) < 250000000000 * 10**6:
+        # the same instant carried in one of four zones: timestamp(string(t)) == t is about instants
+        import datetime
+        off = celx.TS_OFFSETS[(val["v"] // 10**6) % len(celx.TS_OFFSETS)]
+        bind = {name: celx.ct.TimestampType((celx.EPOCH + datetime.timedelta(microseconds=val["v"])).astimezone(datetime.timezone(datetime.timedelta(minutes=off))))}
     out = {}
     for r in ("I", "C"):
         out[r] = celx.strip_py(celx.outcome_abs(celx.run(text, bind, r)))
